@@ -124,6 +124,15 @@ def corpus():
                   P(('call', 'g', [v('x')])), P(v('lamp')),
                   ('return', ('expr', ('bin', '*', v('x'), num(2))))]),
                 P(('call', 'f', [num(2), ('str', 'a')])), P(('macro', 'x')), P(('macro', 'lamp'))])
+    # parameters named like internal registers that are no words of the language: read through a
+    # printf named field they are the parameters, in every activation
+    out.append([('action', 'on', 'all'),
+                ('define', 'report', ['power', 'result', 'operand'],
+                 [P(v('power')), ('printf', '{power} {result} {operand}', []),
+                  ('if', ('expr', ('bin', '>', v('power'), num(0))),
+                   [('call', 'report', [('expr', ('bin', '-', v('power'), num(1))), v('result'), v('operand')], False)],
+                   None)]),
+                ('call', 'report', [num(2), num(100), ('str', 'outer')], False)])
     # … also when the parameter is WRITTEN: assigned (at any depth), used as a loop's index variable
     out.append([('define_macro', 'top', num(5)), ('define_macro', 'idx', num(9)),
                 ('define', 'clamp', ['v', 'top'],
